@@ -352,6 +352,10 @@ def _run_case(spec):
                             pad = tuple(ep.get_submodule('n%d' % src).padding)
                         except AttributeError:
                             pad = None
+                        try:        # a padded tensor shared with other layers: export gives the layer a pad of its own
+                            pad = tuple(ep.get_submodule('n%d_pad' % i).padding)
+                        except AttributeError:
+                            pass
                     plan[i]['pad'] = pad
                     plan[i]['k_opt'] = layers[i].kernel_size_opt[0]
                     plan[i]['d_opt'] = layers[i].dilation_opt[0]
